@@ -12,6 +12,8 @@ import Proofs.Lemmas.C19Stack
 import Proofs.Lemmas.C19Discipline
 import Proofs.Lemmas.C19Transforms
 import Proofs.Lemmas.C19Tabindex
+import Proofs.Lemmas.C19Scope
+import Proofs.Lemmas.C19Applies
 namespace Flatland.C19.Proofs
 open Flatland.Markup Flatland.C19 Flatland.C19.Spec
 
@@ -137,7 +139,7 @@ theorem toggle_resolution (T : Tables) (R : RenderCfg) (markup : Str) (settings 
     (g0 : Gen) (hinit : Gen.init T markup settings = .ok g0) (ops : List Op)
     (key : Str) (b : Bool) (hdef : optionDefaultOK T key b = true) (attrs : Attrs)
     (htv : troolValued T (runS T R g0 (initHist settings) ops).2 key = true)
-    (hns : noShadowingAuto (levelTrools T (runS T R g0 (initHist settings) ops).2 key) = true) :
+    (hns : noShadowingAuto b (levelTrools T (runS T R g0 (initHist settings) ops).2 key) = true) :
     popToggle T key attrs (runGen T R g0 ops).ctx =
       .ok (Dict.erase attrs key,
            resolve b (T.parseTrool ((Dict.get? attrs key).getD .maybe))
@@ -228,7 +230,7 @@ theorem C19_full_fails : ¬ C19_Full := by
   simp [Dict.erase] at h
 
 /-- the witness is exactly what `noShadowingAuto` excludes -/
-example : noShadowingAuto (levelTrools Tables.current
+example : noShadowingAuto true (levelTrools Tables.current
     (runS Tables.current RenderCfg.current kfGen (initHist kfSettings) kfOps).2 "auto_name".toList) = false := by
   decide
 
@@ -246,7 +248,7 @@ def nvGen : Gen :=
 example : Gen.init Tables.current "html".toList nvSettings = .ok nvGen := by decide
 example : troolValued Tables.current
     (runS Tables.current RenderCfg.current nvGen (initHist nvSettings) nvOps).2 "auto_domid".toList = true := by decide
-example : noShadowingAuto (levelTrools Tables.current
+example : noShadowingAuto false (levelTrools Tables.current
     (runS Tables.current RenderCfg.current nvGen (initHist nvSettings) nvOps).2 "auto_domid".toList) = true := by decide
 example : levelTrools Tables.current
     (runS Tables.current RenderCfg.current nvGen (initHist nvSettings) nvOps).2 "auto_domid".toList =
@@ -299,5 +301,19 @@ example : counter tabGen = some 5 := by decide
 example : handed Tables.current RenderCfg.current tabGen
     [tagInput [], .tag "div".toList none [], tagInput [("tabindex".toList, .text "9".toList)], tagInput []] = [5, 6] := by
   decide
+
+
+/-- a scope with everything in between: an accepted set(), a nested block with its own counter, a
+    rejected update(), a tag that is not given a tabindex — the scope's own tags get 5, 6, 7 -/
+def scopeOps : List Op :=
+  [tagInput [], .set [("auto_name".toList, .bool false)],
+   .begin [("tabindex".toList, .int 50)], tagInput [], tagInput [], .end_,
+   .update [("bogus".toList, .int 1)], .tag "div".toList none [], tagInput [], tagInput []]
+
+example : staysAbove Tables.current RenderCfg.current tabGen.ctx.depth tabGen scopeOps = true := by decide
+example : noTabWriteAt Tables.current RenderCfg.current tabGen.ctx.depth tabGen scopeOps = true := by decide
+example : scopeHanded Tables.current RenderCfg.current tabGen.ctx.depth tabGen scopeOps = [5, 6, 7] := by decide
+/-- the nested block handed out 50, 51 of its own -/
+example : handed Tables.current RenderCfg.current tabGen scopeOps ≠ [5, 6, 7] := by decide
 
 end Flatland.C19.Proofs
